@@ -178,6 +178,9 @@ func c19RunWrap(kv map[string]string, body string) string {
 			case "wn":
 				signed.TargetNumber++
 			}
+			if strings.HasPrefix(kind, "cn") { // the signer's honest signature over (this hash, number X)
+				signed.TargetNumber = uint32(c19U(kind[2:]))
+			}
 			payload := primitives.NewLocalizedPayload(primitives.RoundNumber(sr), primitives.SetID(ss), finality.NewMessage(signed))
 			sig := signer.Sign(payload)
 			if kind == "bad" {
@@ -211,7 +214,11 @@ func c19RunWrap(kv map[string]string, body string) string {
 	svc := &Service{grandpaState: gs}
 	r, s, err := svc.VerifyBlockJustification(common.BytesToHash(blockBytes(c19U(ib[0]))), uint(c19U(ib[1])), enc)
 	if err != nil {
-		return c19wErr(err)
+		e := c19wErr(err)
+		if kv["fz"] == "1" && e != "err-setid" && e != "err-auths" && e != "err-voters" {
+			return "rej" // forged-number lines: only the verdict
+		}
+		return e
 	}
 	return fmt.Sprintf("ok r=%d s=%d", r, s)
 }
